@@ -5,6 +5,8 @@
 mod math;
 #[cfg(feature = "multi-thread")]
 mod threads;
+#[cfg(qvnt_verif)]
+pub mod verif;
 
 pub mod operator;
 pub mod register;
